@@ -24,11 +24,14 @@ func handleDWA(sm *StateMachine, dwac chan struct{}) diam.HandlerFunc {
 			return
 		}
 		if dwa.ResultCode != diam.Success {
+			vevent("dwa.fail", c)
 			return
 		}
 		select {
 		case dwac <- dwaACK:
+			vevent("dwa.ack", c)
 		default:
+			vevent("dwa.drop", c)
 		}
 	}
 }
